@@ -342,8 +342,81 @@ def _check_two_consumers(case):
     return []
 
 
+# ---- the same verdict on every way a pipeline comes to have an edge -----------------------------------------------------
+def _hist_cases(tier, rng):
+    g = [x for x in grammar(1) if x[0][0] not in ("typevar",)]
+    for _ in range(60 if tier == "quick" else 600):
+        ta = rng.choice(g)[0]
+        tb = rng.choice((ta, ("array", ta), rng.choice(g)[0], rng.choice(g)[0]))
+        for how in ("add", "add-after-failed-replace", "rename-after-pickle", "rename-after-deepcopy", "replace"):
+            yield {"src": ta, "dst": tb, "how": how}
+
+
+def _check_hist(case):
+    """An edge src -> dst that comes into being through add / replace / update_renames - also after an earlier operation
+    on the pipeline was refused, and after the pipeline went through pickling or deepcopy - is judged like the same edge
+    in a freshly constructed pipeline."""
+    import copy
+    import cloudpickle
+    from pipefunc import Pipeline, pipefunc
+    a, b = _ann(case["src"]), _ann(case["dst"])
+    ok = ref_compat(case["src"], case["dst"])
+
+    def producer(x):
+        return x
+
+    def consumer(y):
+        return 1
+
+    def other(w):
+        return 1
+    producer.__annotations__ = {"x": int, "return": a}
+    consumer.__annotations__ = {"y": b, "return": int}
+    other.__annotations__ = {"w": b, "return": int}
+    f = pipefunc(output_name="y")(producer)
+    g = pipefunc(output_name="z")(consumer)
+    how = case["how"]
+    try:
+        if how == "add":
+            p = Pipeline([f])
+            p.add(g)
+        elif how == "add-after-failed-replace":
+            p = Pipeline([f])
+            for bad_call in (lambda: p.replace(pipefunc(output_name="nope")(other)),       # unknown output name
+                             lambda: p.replace(pipefunc(output_name="y")(producer), old=f)):  # not the pipeline's copy
+                try:
+                    bad_call()
+                except (KeyError, ValueError):
+                    pass
+            p = p if [fn.output_name for fn in p.functions] == ["y"] else Pipeline([f])
+            p.add(g)
+        elif how in ("rename-after-pickle", "rename-after-deepcopy"):
+            h = pipefunc(output_name="z")(other)  # takes w: not connected yet
+            p = Pipeline([f, h])
+            p = cloudpickle.loads(cloudpickle.dumps(p)) if how == "rename-after-pickle" else copy.deepcopy(p)
+            p.update_renames({"w": "y"})  # now h consumes y
+        else:  # replace a compatible consumer by this one
+            ok_consumer = pipefunc(output_name="z")(lambda y: 1)
+            p = Pipeline([f, ok_consumer])
+            p.replace(g)
+        accepted = True
+    except TypeError:
+        accepted = False
+    except Exception as e:  # noqa: BLE001
+        return [f"{how}: raised {type(e).__name__}: {str(e)[:120]}"]
+    if ok and not accepted:
+        return [f"{how}: compatible edge {_show(case['src'])} -> {_show(case['dst'])} rejected"]
+    if not ok and accepted:
+        return [f"{how}: incompatible edge {_show(case['src'])} -> {_show(case['dst'])} accepted"]
+    return []
+
+
 def bounded_checks():
     return [
+        ("annotation-validation-after-histories", Check("annotation-validation-after-histories", _hist_cases, _check_hist,
+                                                        "edge src -> dst created by add / replace / update_renames, after a "
+                                                        "refused replace, after pickling or deepcopy", key=repr,
+                                                        describe=lambda c: {**c, "src": _show(c["src"]), "dst": _show(c["dst"])})),
         ("is_type_compatible-vs-subtyping", Check("is_type_compatible-vs-subtyping", _pair_cases, _check_pairs, RULE,
                                                   key=repr, shards=4)),
         ("pipeline-annotation-validation", Check("pipeline-annotation-validation", _pipe_cases, _check_pipe,
